@@ -1,4 +1,5 @@
 CONSTANTS
+  Strict = FALSE
   Variant = "ok"
 SPECIFICATION TSpec
 CONSTRAINT Progress
